@@ -102,9 +102,15 @@ func sessionMain(s *simrt.Sim, info *harness.RunInfo) {
 		abs = idle + time.Duration(s.Range(3, 8))*time.Second
 	}
 	concurrent := s.Chance(400)
+	// some runs with an absolute timeout keep one session busy (requests closer together than the
+	// idle timeout, mostly plain data operations), so that the absolute deadline is what ends it
+	absFocus := abs > 0 && s.Chance(500)
 	faults := s.Chance(250)
 	info.Faults = faults
 	nclients := s.Range(2, harness.Scale(4, 6))
+	if absFocus {
+		nclients = min(nclients, 2)
+	}
 	preempt := 0
 	if concurrent {
 		preempt = simrt.PickS(s, 150, 50, 400)
@@ -138,8 +144,19 @@ func sessionMain(s *simrt.Sim, info *harness.RunInfo) {
 		st := harness.NewSimStorage(s, "session-store")
 		st.HideSizes = true
 		if faults {
-			st.FailGet = simrt.PickS(s, 80, 200)
-			st.FailDel = simrt.PickS(s, 0, 150)
+			// separate fault mixes: a failing Get ends the part of the run the model can follow, so
+			// runs that are to reach late states (absolute expiry, regenerated ids) with a failing
+			// Delete need a stratum without Get faults
+			switch s.Draw(3) {
+			case 0:
+				st.FailGet = simrt.PickS(s, 80, 200)
+				st.FailDel = simrt.PickS(s, 0, 150)
+			case 1:
+				st.FailDel = simrt.PickS(s, 150, 500, 900)
+			default:
+				st.FailGet = simrt.PickS(s, 30, 80)
+				st.FailDel = simrt.PickS(s, 300, 600)
+			}
 			st.OnFault = func(kind string) {
 				if op := opOfTask[simrt.TaskID()]; op != nil {
 					if kind == "del" {
@@ -155,8 +172,8 @@ func sessionMain(s *simrt.Sim, info *harness.RunInfo) {
 		guard = harness.NewKeyGuard(s, simexport.NewMemoryStorage(), "C15.storage-key-aliases-request-buffer")
 	}
 	cfg.Storage = guard
-	cfgLine := fmt.Sprintf("source=%s storage=%s idle=%v abs=%v concurrent=%v clients=%d preempt=%d faults=%v", source,
-		map[bool]string{false: "storage-memory", true: "sim"}[useSim], idle, abs, concurrent, nclients, preempt, faults)
+	cfgLine := fmt.Sprintf("source=%s storage=%s idle=%v abs=%v concurrent=%v clients=%d preempt=%d faults=%v absFocus=%v", source,
+		map[bool]string{false: "storage-memory", true: "sim"}[useSim], idle, abs, concurrent, nclients, preempt, faults, absFocus)
 	s.Logf("cfg %s", cfgLine)
 
 	mw, store := session.NewWithStore(cfg)
@@ -391,6 +408,8 @@ func sessionMain(s *simrt.Sim, info *harness.RunInfo) {
 		ops = append(ops, op)
 		// what to present
 		switch k := s.Draw(10); {
+		case absFocus && cs.current != "" && s.Chance(850):
+			op.present, op.presKind = cs.current, "current"
 		case k <= 4 && cs.current != "":
 			op.present, op.presKind = cs.current, "current"
 		case k == 5 && len(cs.stale) > 0:
@@ -413,6 +432,9 @@ func sessionMain(s *simrt.Sim, info *harness.RunInfo) {
 		if concurrent && op.route == "resetall" {
 			op.route = "mw"
 		}
+		if absFocus && s.Chance(700) {
+			op.route = "mw"
+		}
 		if op.route == "byid" || op.route == "delete" {
 			op.targetID = op.present
 			if op.targetID == "" {
@@ -425,8 +447,12 @@ func sessionMain(s *simrt.Sim, info *harness.RunInfo) {
 		// program
 		if op.route == "mw" || op.route == "store" || op.route == "byid" {
 			n := s.Draw(4)
+			kinds := 8
+			if absFocus && s.Chance(800) {
+				kinds = 4 // set / del only
+			}
 			for i := 0; i < n; i++ {
-				switch s.Draw(8) {
+				switch s.Draw(kinds) {
 				case 0, 1, 2:
 					op.prog = append(op.prog, sessStep{kind: "set", k: "k" + strconv.Itoa(s.Draw(3)), v: fmt.Sprintf("v%d.%d", op.id, i)})
 				case 3:
@@ -485,6 +511,9 @@ func sessionMain(s *simrt.Sim, info *harness.RunInfo) {
 		opOfTask[simrt.TaskID()] = op
 		op.start = time.Now()
 		pre := status(op.present, op.start)
+		if m := live[op.present]; m != nil && !m.absUntil.IsZero() && op.start.After(m.absUntil) && m.idleUntil.Sub(op.start) > 2*time.Second {
+			s.Count("probe_absolute_deadline_passed_on_a_busy_session")
+		}
 		if op.route == "byid" || op.route == "delete" {
 			pre = status(op.targetID, op.start)
 		}
@@ -619,9 +648,16 @@ func sessionMain(s *simrt.Sim, info *harness.RunInfo) {
 			destroyed := false
 			expectEmit := "" // "" nothing handed out, "-" expired, otherwise the id
 			if op.twice && op.route == "store" {
-				// the first Get + Save of this request
-				live[curID] = &sessModel{data: copyData(cur.data), absUntil: cur.absUntil, idleUntil: op.end.Add(idle)}
-				expectEmit = curID
+				// the first Get + Save of this request. It need not have run under the id the second Get
+				// observed: when the presented session had passed its absolute deadline, the first Get
+				// replaced it by a new one (saved here), while the request still carries the old cookie,
+				// so the second Get starts yet another fresh session
+				firstID := curID
+				if !wasLive && len(op.genIDs) > 0 {
+					firstID = op.genIDs[0]
+				}
+				live[firstID] = &sessModel{data: copyData(cur.data), absUntil: cur.absUntil, idleUntil: op.end.Add(idle)}
+				expectEmit = firstID
 			}
 			saveNow := func() {
 				cp := &sessModel{data: copyData(cur.data), absUntil: cur.absUntil, idleUntil: op.end.Add(idleFor)}
@@ -694,6 +730,10 @@ func sessionMain(s *simrt.Sim, info *harness.RunInfo) {
 					s.Fail("C15.emitted-id", "op%d saved the session under %q but the response header hands out %q", op.id, expectEmit, op.emitted)
 					return
 				}
+			case op.emitted == "-" && expectEmit == "" && mstate != nil && !mstate.absUntil.IsZero() && op.start.After(mstate.absUntil):
+				// the presented session had passed its absolute deadline: the server may tell the
+				// client to drop that cookie even though the request saved nothing new
+				s.Count("probe_expired_cookie_handed_out_for_absolutely_expired_session")
 			case op.emitted != expectEmit:
 				if expectEmit == "-" {
 					s.Fail("C15.destroy-cookie", "op%d destroyed / reset the session without saving a new one, but the response hands out id %q", op.id, op.emitted)
@@ -784,6 +824,9 @@ func sessionMain(s *simrt.Sim, info *harness.RunInfo) {
 	thinks := []time.Duration{0, 0, 500 * time.Millisecond, idle - 2500*time.Millisecond, idle + 2500*time.Millisecond}
 	if abs > 0 {
 		thinks = append(thinks, abs-idle+500*time.Millisecond)
+	}
+	if absFocus {
+		thinks = []time.Duration{0, 500 * time.Millisecond, time.Second, idle - 2500*time.Millisecond, idle - 2500*time.Millisecond}
 	}
 	s.SetPreempt(preempt)
 	if concurrent {
